@@ -160,7 +160,8 @@ def inventory(pkgdir):
                     for t, k in flat:
                         if isinstance(t, (ast.Attribute, ast.Subscript)):
                             r = root_name(t)
-                            sites.append(dict(module=mname, function=qual, cls=cls, target=text(t), root=r, root_is_local=r in loc, kind=k, lineno=child.lineno))
+                            sites.append(dict(module=mname, function=qual, cls=cls, target=text(t), root=r, root_is_local=r in loc, kind=k, lineno=child.lineno,
+                                              is_attr=isinstance(t, ast.Attribute), attr=t.attr if isinstance(t, ast.Attribute) else None))
                         elif isinstance(t, ast.Name) and t.id not in loc:
                             sites.append(dict(module=mname, function=qual, cls=cls, target=t.id, root=t.id, root_is_local=False, kind="global-" + k, lineno=child.lineno))
                     if isinstance(child, ast.Call) and isinstance(child.func, ast.Attribute) and child.func.attr in MUTATORS:
